@@ -6,7 +6,7 @@ trap 'rm -rf "$TMP"' EXIT
 rsync -a --exclude .git /repo/ "$TMP/repo/"
 ( cd "$TMP/repo" && git apply --whitespace=nowarn "$P" ) 2>/dev/null || ( cd "$TMP/repo" && patch -p1 -s --fuzz=3 < "$P" ) >/dev/null 2>&1 || { echo "APPLY-FAILED $P"; exit 0; }
 ( cd "$TMP/repo" && go build ./... ) >/dev/null 2>&1 || { echo "BUILD-FAILED $P"; exit 0; }
-OUT=$(/verif/bin/finlint -repo "$TMP/repo" -verif /verif -property all -no-evidence 2>&1)
+OUT=$(${FINLINT:-/verif/bin/finlint} -repo "$TMP/repo" -verif /verif -property all -no-evidence 2>&1)
 N=$(printf '%s\n' "$OUT" | grep -c '^VIOLATION')
 echo "$(basename $(dirname $P)) violations=$N"
 printf '%s\n' "$OUT" | grep -A2 '^finding' | grep -v '^--' | cut -c1-330 | sed 's/^/    /'
